@@ -22,7 +22,20 @@ INITIAL.update(fc=True, ids0=True, zid_none=True, md_none=True, pr_default=True,
 for lv in c01.LEVELS:
     INITIAL[f"{lv}_tags_empty"] = INITIAL[f"{lv}_props_empty"] = INITIAL[f"{lv}_date_none"] = True
 
+# control predicates (syntactic flags, which sections / block are open) are tracked relationally; the others per control
+# valuation as a three-valued vector
+CONTROL = ("fc", "hd", "k1", "k2", "k3", "k4", "nt", "qw", "h1n", "h2n", "h3n", "h4n", "blkn", "h0n")
+DATA = tuple(n for n in PREDICATES if n not in CONTROL)
 WORD_RULES_ROOT = "space_atoms"
+
+# Alternatives of the grammar that ANTLR's prediction never selects (assumption A-ANTLR-MINALT: when two alternatives of a
+# decision derive the same tokens with the same continuation, adaptivePredict resolves the ambiguity to the lower-numbered
+# one).  Each entry is accompanied by mechanically checked side conditions (Walk.check_dead_alternatives).
+DEAD_ALTERNATIVES = [
+    {"rule": "unquoted_word", "callee": "priority", "shadowed_by": "id_group", "tokens": [("PRIORITY",)],
+     "why": "a PRIORITY token in word position is always parsed as id_group -> id -> priv_id (alternative 5 of unquoted_word), "
+            "never as priority (alternative 11): enterPriority therefore fires only for the `(SPACE priority)?` of base_todo"},
+]
 
 
 def region_fn(rule, callee, region, ghost):
